@@ -1466,7 +1466,7 @@ def fn_counts_ext(case, ctx):
 @st.composite
 def counts_big_case(draw):
     # (the first example of every shard is the simplest one = 65537 points)
-    return {"n": draw(st.sampled_from([65537, 65536, 131073, 65535, 70001])), "scale": draw(st.sampled_from([1.0, 1 / 3, 1e-5])),
+    return {"n": draw(st.sampled_from([65537, 65536, 65538])), "scale": draw(st.sampled_from([1.0, 1 / 3, 1e-5])),
             "fmt": "all-text-formats"}
 
 
@@ -1481,8 +1481,7 @@ def fn_counts_big(case, ctx):
                        "off_colors": None}}
         full = realise_strip(rec)
         full["fmt"] = fmt
-        fn_roundtrip(full, ctx)
-        fn_ext(full, ctx)
+        fn_roundtrip(full, ctx)     # (mouette's writer and reader both; foreign files of this size are the business of large_ext)
 
 
 def fn_large(case, ctx):
